@@ -127,6 +127,12 @@ def corpus():
                 ["affine", [2.0, 1.0, 0.5, -3.0]], "linear", False, {}, "corpus-pg-affine"),
           mk_pg([0.0, 1.0, 2.0, 3.0], [10.0, 20.0, 30.0], [[1.0, 2.0, 3.0, 4.0], [5.0, None, 7.0, 8.0], [9.0, 10.0, 11.0, 12.5]],
                 ["cube", [4.0]], "nearest", True, {}, "corpus-pg-cube-hole"),
+          mk_pg([0.0, 1.0, 2.0, 3.0, 4.0], [10.0, 20.0, 30.0, 40.0],
+                [[None, None, 3.0, 4.0, 5.0], [None, 6.0, 7.0, 8.0, 9.0], [9.0, 10.0, 11.0, 12.5, 13.0], [1.0, 2.0, 3.0, 4.0, 5.5]],
+                ["affine", [2.0, 1.0, 0.5, -3.0]], "nearest", False, {}, "corpus-pg-cut-corner-nearest"),
+          mk_pg([0.0, 1.0, 2.0, 3.0], [10.0, 20.0, 30.0, 40.0],
+                [[None, None, None, None], [5.0, 6.0, 7.0, 8.0], [9.0, 10.0, 11.0, 12.5], [1.0, 2.0, 3.0, 4.0]],
+                ["affine", [2.0, 1.0, 0.5, -3.0]], "linear", False, {}, "corpus-pg-nan-margin-row"),
           # known finding F1: Clough-Tocher overshoots the input range even with antialiasing
           mk_pg([-3.5, -2.5, -1.5, -0.5, 0.5, 1.5], [1.5, 2.5, 3.5, 4.5],
                 [[8.25, -0.5, 8.0, -2.0, -2.75, -0.25], [0.5, 6.75, -0.75, -1.25, 2.0, 5.5], [-6.5, -7.75, 3.25, -3.75, -4.5, -3.5],
@@ -171,6 +177,20 @@ def generate(rng, tier):
             vals = [[rng.randint(-40, 40) / 4.0 for _ in ge] for _ in gn]
             if rng.random() < 0.3:
                 vals[rng.randrange(nn)][rng.randrange(ne)] = None
+            nanmargin = rng.random()
+            if nanmargin < 0.12:          # an all-NaN margin row / column: the data footprint is smaller than the grid
+                if rng.random() < 0.5:
+                    vals[rng.choice([0, nn - 1])] = [None] * ne
+                else:
+                    j_ = rng.choice([0, ne - 1])
+                    for row in vals:
+                        row[j_] = None
+            elif nanmargin < 0.24:        # a cut corner (triangle of NaNs): the data hull excludes it
+                ci, cj = rng.choice([0, nn - 1]), rng.choice([0, ne - 1])
+                for i_ in range(nn):
+                    for j_ in range(ne):
+                        if abs(i_ - ci) + abs(j_ - cj) <= 1:
+                            vals[i_][j_] = None
             proj = rng.choice([["affine", [2.0, 1.0, 0.5, -3.0]], ["affine", [0.5, -2.0, 4.0, 10.0]], ["cube", [4.0]], ["cube", [64.0]]])
             kw = {}
             if rng.random() < 0.2:
@@ -182,9 +202,12 @@ def generate(rng, tier):
                 w_, e_, s_, n_ = float(min(pe_)), float(max(pe_)), float(min(pn_)), float(max(pn_))
                 qw = lambda a, b, t: float(np.round((a + (b - a) * t) * 16) / 16)  # noqa: E731
                 kw["region"] = [qw(w_, e_, 0.25), qw(w_, e_, rng.choice([0.75, 1.0])), qw(s_, n_, rng.choice([0.0, 0.25])), qw(s_, n_, 0.75)]
+                if not (kw["region"][0] < kw["region"][1] and kw["region"][2] < kw["region"][3]):
+                    del kw["region"]          # rounding collapsed the sub-box: a zero-extent request is not a grid
             if rng.random() < 0.15 and "shape" not in kw:
                 kw["spacing"] = rng.choice([0.5, 1.0, (2.0, 0.5)])
-            cs.append(mk_pg(ge, gn, vals, proj, rng.choice(["linear", "nearest", "cubic"]), rng.random() < 0.5, kw, "project-grid-" + proj[0]))
+            meth = rng.choice(["linear", "nearest", "cubic"]) if nanmargin >= 0.24 else rng.choice(["nearest", "nearest", "linear"])
+            cs.append(mk_pg(ge, gn, vals, proj, meth, rng.random() < 0.5, kw, "project-grid-" + proj[0] + ("-nanmargin" if nanmargin < 0.24 else "")))
     return cs
 
 
@@ -224,7 +247,15 @@ def impl(case):
     return ["pg", r]
 
 
+def _degenerate_antialias(case, io):
+    """A requested spacing so coarse that the antialiasing block means are collinear / fewer than three: Qhull refuses the
+    degenerate hull — outside the property (non-degenerate hulls)."""
+    return (case["fn"] == "pg" and C.is_err(io) and "QhullError" in io[1] and case["args"][5] and "spacing" in case["args"][6])
+
+
 def compare(case, io, mo):
+    if _degenerate_antialias(case, io):
+        return "amb"
     if C.is_err(io):
         return "diff:implementation failed: " + io[1]
     if case["fn"] == "mask":
@@ -254,6 +285,8 @@ def compare(case, io, mo):
 
 def oracle(case, io):
     a = case["args"]
+    if _degenerate_antialias(case, io):
+        return None
     if C.is_err(io):
         return "failed: " + io[1]
     if case["fn"] == "mask":
